@@ -67,6 +67,21 @@ def write_replay(prop, v, extra=None):
     return path
 
 
+def _cov_summary(prop):
+    """lines / branch sides of /repo's ansi_string package this run's cases went through (harness/covmon.py); the raw
+    data is kept in build/cov/<id>.json for tools/coverage_gaps.py"""
+    try:
+        from . import covmon
+        s = covmon.summary()
+        if s is not None:
+            os.makedirs(os.path.join(ROOT, 'build', 'cov'), exist_ok=True)
+            with open(os.path.join(ROOT, 'build', 'cov', prop + '.json'), 'w') as f:
+                json.dump(covmon.dump(), f)
+        return s if s is not None else 'not measured (interpreter without sys.monitoring)'
+    except Exception as e:  # noqa
+        return 'not measured: %s' % e
+
+
 def write_evidence(rep, binfo, level_rule, trusted, assumptions):
     ev = {
         'property_id': rep.prop,
@@ -97,6 +112,7 @@ def write_evidence(rep, binfo, level_rule, trusted, assumptions):
             'notes': rep.notes,
             'known_findings_confirmed': sorted(rep.known_hits),
             'extraction_cross_checked_requests': rep.xchecked,
+            'implementation_code_exercised': _cov_summary(rep.prop),
             'exhaustive': False,
         },
         'assumptions': assumptions,
